@@ -203,14 +203,65 @@ class Simplifier(pysmt.walkers.DagWalker):
         sl = args[0]
         sr = args[1]
 
-        if sl.is_constant() and sr.is_constant():
+        if sl == sr:
+            return self.manager.TRUE()
+        elif sl.is_array_value() or sr.is_array_value():
+            # constant_value() of an array value is not its content:
+            # compare the arrays structurally, when this is conclusive
+            res = self._array_values_equal(sl, sr)
+            if res is not None:
+                return self.manager.Bool(res)
+            return self.manager.Equals(sl, sr)
+        elif sl.is_constant() and sr.is_constant():
             l = sl.constant_value()
             r = sr.constant_value()
             return self.manager.Bool(l == r)
-        elif sl == sr:
-            return self.manager.TRUE()
         else:
             return self.manager.Equals(sl, sr)
+
+    def _array_values_equal(self, a: FNode, b: FNode) -> Optional[bool]:
+        """Decides the equality of two constant terms that can be array values.
+
+        Returns None if the terms are not constants, or if equality
+        cannot be decided (arrays agreeing on all the assigned indexes
+        but with different defaults, over a finite index type).
+        """
+        if a == b:
+            return True
+        if not (a.is_constant() and b.is_constant()):
+            return None
+        if not (a.is_array_value() and b.is_array_value()):
+            return a.constant_value() == b.constant_value()
+
+        a_default, b_default = a.array_value_default(), b.array_value_default()
+        a_map = a.array_value_assigned_values_map()
+        b_map = b.array_value_assigned_values_map()
+        undecided = False
+        assigned = set(a_map) | set(b_map)
+        for idx in assigned:
+            eq = self._array_values_equal(a_map.get(idx, a_default),
+                                          b_map.get(idx, b_default))
+            if eq is False:
+                return False
+            if eq is None:
+                undecided = True
+        eq = self._array_values_equal(a_default, b_default)
+        if eq is None or undecided:
+            return None
+        if eq:
+            return True
+        # The defaults differ: the arrays differ iff there is an index
+        # that is not assigned. This is always the case for infinite
+        # domains; for finite ones we count the assigned indexes.
+        idx_type = a.array_value_index_type()
+        if idx_type.is_int_type() or idx_type.is_real_type() or \
+           idx_type.is_string_type():
+            return False
+        if idx_type.is_bool_type():
+            return len(assigned) == 2
+        if idx_type.is_bv_type():
+            return len(assigned) == 2**cast(types._BVType, idx_type).width
+        return None
 
     def walk_ite(self, formula: FNode, args: List[FNode], **kwargs) -> FNode:
         assert len(args) == 3
